@@ -16,23 +16,18 @@ def main():
     n_single = G.n_single() if chk.thorough else (600000 if chk.broken else 200000)
     n_multi = 100000 if chk.thorough else (60000 if chk.broken else 25000)
     n_bad = 60000 if chk.thorough else (30000 if chk.broken else 12000)
-    # the recorded witness of the known finding, replayed on the real code (the model's verdict is Props.C11.witness_outcome)
+    # the witness of the finding repaired by fix: 871d4d7 (int() digit limit), replayed on the real code (model: Props.C11.witness_outcome)
     witness = '%.' + '0' * 4301 + 'd'
     rep = C.check_property(witness)
-    resolved = rep is None
     if rep is not None:
         key = rep.pop('key')
         chk.violation(rep['kind'], rep, key=key)
-    else:
-        print('KNOWN-FINDING-RESOLVED: property=C11 the int() digit-limit witness no longer fails on the real code (the model still does); '
-              'strings with a numeral of more than 4300 digits are left out of the correspondence until the model is updated')
-        chk.coverage['known_finding_resolved'] = C.DIGIT_LIMIT_KEY
 
     fam = {'corpus': C.corpus()}
     fam.update(C.stream_inputs(chk, n_single, n_multi, n_bad))
     disagreeing = []
     if driver_ok:
-        stream_fam = {k: ([s for s in v if not C.has_long_numeral(s)] if resolved else v) for k, v in fam.items()}
+        stream_fam = fam
         res = C.run_stream(chk, {k: v for k, v in stream_fam.items() if v})
         for name, ss in res.items():
             disagreeing += ss
@@ -76,10 +71,11 @@ def main():
         explanation='Proved for all strings: parse_sound (accepted => rendering of Valid items, arguments = signature), items_unique '
                     '(unique readability: the scanner inverts render), parse_error_kinds (a failure is an own Error class or the int() ValueError), '
                     'warnings_inert, star_args, ctables_pin / regex_pin / model_checks_pin (probed tables = Spec.Printf tables, by decide). '
-                    'Proved for all strings without a digit run longer than sys.get_int_max_str_digits(): parse_complete_partial, '
-                    'parse_iff_valid_partial, parse_error_own_partial. The unrestricted clauses are FALSE of the code and refuted in Lean '
-                    '(parse_iff_valid_refuted, parse_error_own_refuted; witness "%." + "0"*4301 + "d", replayed on the real code each run and '
-                    'listed in known_findings.json). OUTSTANDING: nothing stated in the design is missing; the language of the regex is pinned '
+                    'Proved for every string: parse_complete, parse_iff_valid (acceptance iff validity, with the signature), parse_error_own (own errors only), '
+                    'via int_unlimited (sys.get_int_max_str_digits() as dumped from the running tool is 0: lib/__init__.py lifts the limit since fix: 871d4d7) '
+                    'and the _partial theorems, which hold for any limit under "no digit run longer than the limit". On the pinned tree the unrestricted '
+                    'clauses were false (witness "%." + "0"*4301 + "d": ValueError from int()); the witness is replayed on the real code each run '
+                    '(fixed entry in known_findings.json). OUTSTANDING: nothing stated in the design is missing; the language of the regex is pinned '
                     'by text, not proved against an Re term.')
 
 if __name__ == '__main__':
